@@ -228,10 +228,7 @@ Lemma gen_prefix_window recvbuf ts count (ms : list nat) (f : nat -> list Z) siz
   (prefix_common_prescan_gather_arg1 (zn count), prefix_common_prescan_gather_arg4 (zn count), prefix_common_prescan_gather_arg6) = (zn count, zn count, 0) /\
   prefix_common_prescan_memset_arg2 (zn count) ts = zn (length (repeat 0 count)) * ts /\
   prefix_common_prescan_allgather_arg3 recvbuf (zn count) ts = recvbuf + zn (length (repeat 0 count)) * ts /\
-  prefix_common_prescan_allgather_arg1 (zn count) isz = blk /\ prefix_common_prescan_allgather_arg4 (zn count) isz = blk /\
-  allgather_common_malloc_arg1 isz (zn count) ts = blk * ts /\
-  (allgather_common_gather_arg1 (zn count), allgather_common_gather_arg4 (zn count), allgather_common_gather_arg6) = (zn count, zn count, 0) /\
-  allgather_common_allgather_arg1 (zn count) isz = blk /\ allgather_common_allgather_arg4 (zn count) isz = blk.
+  prefix_common_prescan_allgather_arg1 (zn count) isz = blk /\ prefix_common_prescan_allgather_arg4 (zn count) isz = blk.
 Proof.
   intros Ht Hk Hb Hc Hi Hf. cbv zeta. rewrite (len_gather ms f count Hf). rewrite repeat_length.
   rewrite Nat2Z.inj_mul.
@@ -241,8 +238,7 @@ Proof.
     prefix_common_prescan_malloc1_arg1, prefix_common_prescan_malloc2_arg1, prefix_common_prescan_scan_arg2,
     prefix_common_prescan_gather_arg1, prefix_common_prescan_gather_arg4, prefix_common_prescan_gather_arg6,
     prefix_common_prescan_memset_arg2, prefix_common_prescan_allgather_arg3, prefix_common_prescan_allgather_arg1,
-    prefix_common_prescan_allgather_arg4, allgather_common_malloc_arg1, allgather_common_gather_arg1, allgather_common_gather_arg4,
-    allgather_common_gather_arg6, allgather_common_allgather_arg1, allgather_common_allgather_arg4.
+    prefix_common_prescan_allgather_arg4.
   assert (B31 < 2 ^ 62) by (unfold B31; reflexivity).
   set (n := zn (length ms)) in *. set (k := zn count) in *.
   assert (0 <= n) by (subst n; lia). assert (0 <= k) by (subst k; lia).
@@ -251,4 +247,47 @@ Proof.
   rewrite (u64_sm (n * k * ts)) by nia. rewrite (u64_sm (k * ts)) by nia. rewrite (u64_sm (ts * k)) by nia.
   rewrite !Z.mul_1_r. rewrite (u64_sm (n * k * ts)) by nia. rewrite (u64_sm (ts * k)) by nia.
   repeat split; lia.
+Qed.
+
+(* ---------- sc_shmem_allgather: separate send and receive signatures ---------------------------------------------------------------- *)
+(* snd = (sendcount, size of sendtype), rcv = (recvcount, size of recvtype), k = size of the node (intranode communicator), st / rt the
+   datatype handles, cm / ia / ie the communicator and its two node communicators.  The generated arguments are functions of ALL of
+   (sendcount, sendtype, recvcount, recvtype, intrasize, typesize, comm, intranode, internode):
+   basic flavours: MPI_Allgather (sendcount, sendtype -> recvcount, recvtype) on comm                    (model: coll_gather (seq 0 P) contrib snd rcv);
+   window flavours: typesize = sc_mpi_sizeof (RECVTYPE); the node buffer has intrasize * RECVCOUNT * typesize bytes (model: the room of
+   node_buffer); MPI_Gather (SENDCOUNT, sendtype -> RECVCOUNT, recvtype) to root 0 of intranode          (model: coll_gather (intra ncq) contrib snd rcv);
+   MPI_Allgather (SENDCOUNT * intrasize, sendtype -> RECVCOUNT * intrasize, recvtype) on internode       (model: sig_times k snd, sig_times k rcv) *)
+Lemma gen_allgather_sig (snd rcv : sig) (k : nat) st rt cm ia ie :
+  zn (sg_count snd * k) < B31 -> zn (sg_count rcv * k) < B31 -> zn (k * (sg_count rcv * sg_size rcv)) < B31 ->
+  let sc := zn (sg_count snd) in let rc := zn (sg_count rcv) in let isz := zn k in let ts := zn (sg_size rcv) in
+  (allgather_basic_allgather_arg1 sc st rc rt isz ts cm ia ie, allgather_basic_allgather_arg2 sc st rc rt isz ts cm ia ie,
+   allgather_basic_allgather_arg4 sc st rc rt isz ts cm ia ie, allgather_basic_allgather_arg5 sc st rc rt isz ts cm ia ie,
+   allgather_basic_allgather_arg6 sc st rc rt isz ts cm ia ie) = (sc, st, rc, rt, cm) /\
+  allgather_common_sizeof_arg0 sc st rc rt isz ts cm ia ie = rt /\
+  allgather_common_malloc_arg1 sc st rc rt isz ts cm ia ie = zn (k * (sg_count rcv * sg_size rcv)) /\
+  (allgather_common_gather_arg1 sc st rc rt isz ts cm ia ie, allgather_common_gather_arg2 sc st rc rt isz ts cm ia ie,
+   allgather_common_gather_arg4 sc st rc rt isz ts cm ia ie, allgather_common_gather_arg5 sc st rc rt isz ts cm ia ie,
+   allgather_common_gather_arg6 sc st rc rt isz ts cm ia ie, allgather_common_gather_arg7 sc st rc rt isz ts cm ia ie) = (sc, st, rc, rt, 0, ia) /\
+  (allgather_common_allgather_arg1 sc st rc rt isz ts cm ia ie, allgather_common_allgather_arg2 sc st rc rt isz ts cm ia ie,
+   allgather_common_allgather_arg4 sc st rc rt isz ts cm ia ie, allgather_common_allgather_arg5 sc st rc rt isz ts cm ia ie,
+   allgather_common_allgather_arg6 sc st rc rt isz ts cm ia ie)
+  = (zn (sg_count (sig_times k snd)), st, zn (sg_count (sig_times k rcv)), rt, ie).
+Proof.
+  intros H1 H2 H3. cbv zeta.
+  unfold allgather_basic_allgather_arg1, allgather_basic_allgather_arg2, allgather_basic_allgather_arg4, allgather_basic_allgather_arg5,
+    allgather_basic_allgather_arg6, allgather_common_sizeof_arg0, allgather_common_malloc_arg1, allgather_common_gather_arg1,
+    allgather_common_gather_arg2, allgather_common_gather_arg4, allgather_common_gather_arg5, allgather_common_gather_arg6,
+    allgather_common_gather_arg7, allgather_common_allgather_arg1, allgather_common_allgather_arg2, allgather_common_allgather_arg4,
+    allgather_common_allgather_arg5, allgather_common_allgather_arg6, sig_times. cbn [sg_count sg_size].
+  assert (B31 < 2 ^ 62) by (unfold B31; reflexivity).
+  rewrite !Nat2Z.inj_mul in *.
+  set (a := zn (sg_count snd)) in *. set (b := zn (sg_count rcv)) in *. set (n := zn k) in *. set (t := zn (sg_size rcv)) in *.
+  assert (0 <= a) by (subst a; lia). assert (0 <= b) by (subst b; lia). assert (0 <= n) by (subst n; lia). assert (0 <= t) by (subst t; lia).
+  destruct (Z.eq_dec t 0) as [T0|T0].
+  - rewrite T0 in *. rewrite (s32_sm (a * n)) by lia. rewrite (s32_sm (b * n)) by lia.
+    rewrite !Z.mul_0_r. change (u64 0) with 0. repeat split; try reflexivity.
+  - assert (n * b < B31) by nia.
+    rewrite (s32_sm (n * b)) by lia. rewrite (s32_sm (a * n)) by lia. rewrite (s32_sm (b * n)) by lia.
+    rewrite (u64_sm (n * b)) by lia. rewrite (u64_sm (n * b * t)) by nia. rewrite Z.mul_1_r. rewrite (u64_sm (n * b * t)) by nia.
+    repeat split; try reflexivity; lia.
 Qed.
